@@ -13,6 +13,7 @@ enum { F_TS, F_NPD, F_VNACAL, F_YAML, NFORMATS };
 #define SF_L2		0x01	/* level-2 (pairs) in the thorough tier */
 #define SF_PROBE	0x02	/* unusual-but-legal probe: may be refused */
 #define SF_LIGHT	0x04	/* big seed: only truncation and line kinds */
+#define SF_ALONE	0x08	/* costly seed: the document itself only */
 
 typedef struct seed {
     const char *name;
@@ -466,6 +467,14 @@ static const seed_t seeds[] = {
 	"#:ports 3\n#:frequencies 1\n#:parameters Zri,Hma\n"
 	"1 1 2 3 4 5 6 7 8 9 10 11 12 13 14 15 16 17 18 "
 	"1 2 3 4 5 6 7 8 9 10 11 12 13 14 15 16 17 18\n", SF_PROBE },
+    /* dimensions far beyond the data that follow: refused, not crashed */
+    { "vnacal-probe-huge-dims", F_VNACAL, "vnacal",
+	"#VNACal 1.0\n%YAML 1.1\n---\nproperties: ~\ncalibrations:\n"
+	"- name: c1\n  type: E12\n  rows: 800\n  columns: 800\n"
+	"  frequencies: 1\n  z0: +5.0e+01 +0.0e+00j\n  properties: ~\n"
+	"  data:\n  - f: 1.0e+09\n    el:\n    - [+2.5e-01 +5.0e-01j]\n"
+	"    er:\n    - [+5.0e-01 +5.0e-01j]\n    em:\n"
+	"    - [+7.5e-01 +5.0e-01j]\n", SF_PROBE | SF_ALONE },
     /* ---- vnacal ---- */
     { "vnacal-e12-1x1", F_VNACAL, "vnacal", vc_e12_1x1, 0 },
     { "vnacal-t8-1x1", F_VNACAL, "vnacal", vc_t8_1x1, SF_L2 },
